@@ -389,9 +389,19 @@ def r4(ctx):
     loop = adds[0]
     while loop in par and not isinstance(loop, ast.For):
         loop = par[loop]
-    ctx.need(isinstance(loop, ast.For) and U(inline(loop.iter, env)) == f"range({o}.current_index)", f"{f.site()}: loop over other's stored values not found")
-    i = U(loop.target)
+    ctx.need(isinstance(loop, ast.For), f"{f.site()}: loop over other's stored values not found")
+    it = inline(loop.iter, env)
     lenv = {}
+    if U(it) == f"range({o}.current_index)":
+        i = U(loop.target)
+    elif isinstance(it, ast.Call) and call_name(it) == "zip" and [U(a).replace(" ", "") for a in it.args] == [f"{o}.{k}[:{o}.current_index]" for k in ("row_indices", "col_indices", "values")] \
+            and isinstance(loop.target, ast.Tuple) and len(loop.target.elts) == 3 and all(isinstance(t, ast.Name) for t in loop.target.elts):
+        # for row, col, value in zip(other's three filled prefixes): the k-th stored entry, element-wise
+        i = "_i"
+        for t, k in zip(loop.target.elts, ("row_indices", "col_indices", "values")):
+            lenv[t.id] = parse_expr(f"{o}.{k}[_i]")
+    else:
+        raise AnalysisError(f"{f.site()}: loop over other's stored values not found (neither range(other.current_index) nor zip of other's filled prefixes)")
     for st in loop.body:
         if isinstance(st, ast.Assign):
             t = st.targets[0]
@@ -417,6 +427,13 @@ def r4(ctx):
     ok_args = args == [f"{o}.row_indices[{i}]", f"{o}.col_indices[{i}]", f"{o}.values[{i}]"]
     want_key = [f"{o}.row_indices[{i}]", f"{o}.col_indices[{i}]"]
     prefix_zip = f"zip({comp}.row_indices[:{comp}.current_index],{comp}.col_indices[:{comp}.current_index])"
+    # the composed matrix starts as a copy of self's filled prefix: self's prefix is then the same set of stored pairs
+    copies = {}
+    for x in walk_own(f.node):
+        if isinstance(x, ast.Assign) and len(x.targets) == 1 and isinstance(x.targets[0], ast.Subscript) and isinstance(x.targets[0].value, ast.Attribute) and U(x.targets[0].value.value) == comp:
+            copies[x.targets[0].value.attr] = U(inline(x.value, env)).replace(" ", "")
+    from_self = all(copies.get(k) == f"self.{k}[:self.current_index]" for k in ("row_indices", "col_indices", "values"))
+    prefix_zips = [prefix_zip] + ([f"zip(self.row_indices[:self.current_index],self.col_indices[:self.current_index])"] if from_self else [])
     # candidate guards: enclosing ifs of the add_value call, and earlier `if <test>: continue` statements of the loop body
     guards = []
     n = adds[0]
@@ -443,11 +460,12 @@ def r4(ctx):
             key_l = [U(e).replace(" ", "") for e in key.elts] if isinstance(key, ast.Tuple) else None
             coll = tt.comparators[0]
             coll_t = U(strip_int(inline(coll, {k: v for k, v in env.items() if k != comp}))).replace(" ", "")
-            good_coll = coll_t == prefix_zip
+            good_coll = coll_t in prefix_zips
             if not good_coll and isinstance(coll, ast.Name):
                 init = [x.value for x in walk_own(f.node) if isinstance(x, ast.Assign) and U(x.targets[0]) == coll.id]
                 adds_to = [c for c in calls(loop, tail="add") if U(c.func.value) == coll.id]
-                if len(init) == 1 and U(strip_int(init[0])).replace(" ", "") in (f"set({prefix_zip})", f"{{*{prefix_zip}}}"):
+                init_t = U(strip_int(inline(init[0], {k: v for k, v in env.items() if k != comp}))).replace(" ", "") if len(init) == 1 else ""
+                if len(init) == 1 and any(init_t in (f"set({pz})", f"{{*{pz}}}") for pz in prefix_zips):
                     upd = any(U(strip_int(inline(c.args[0], lenv))).replace(" ", "").strip("()").split(",") == want_key and c.lineno > adds[0].lineno for c in adds_to)
                     good_coll = upd
                     if not upd:
@@ -621,10 +639,27 @@ def r7(ctx):
     env = single_defs(lf.node)
     reads = {kx: common.h5_read_key(v) for kx, v in env.items()}
     rk = {v[1]: kx for kx, v in reads.items() if v}
-    src = U(lf.node).replace(" ", "")
     ok = all(k in rk for k in want) and "size" in rk and all(reads[rk[k]][3] == "whole" for k in want)
-    ok = ok and all(f"instance.{k}[:len({rk['values']})]={rk[k]}" in src for k in want) and f"instance.current_index=len({rk['values']})" in src \
-        and sz is not None and "self.size" in U(sz) and f"cls({rk['size']},chunk_size=len({rk['values']}))" in src
+    if ok:
+        # stores into the new instance, with count locals (n = len(values)) read through
+        cenv = {k: v for k, v in env.items() if isinstance(v, ast.Call) and call_name(v) == "len"}
+        inst_names = [k for k, v in env.items() if isinstance(v, ast.Call) and U(v.func) in ("cls", "ChunkedDistanceMatrix")]
+        ok = len(inst_names) == 1
+        if ok:
+            inst = inst_names[0]
+            ctor = env[inst]
+            n_expr = f"len({rk['values']})"
+            stores = {}
+            for n in walk_own(lf.node):
+                if isinstance(n, ast.Assign) and len(n.targets) == 1:
+                    t = n.targets[0]
+                    if isinstance(t, ast.Subscript) and isinstance(t.value, ast.Attribute) and U(t.value.value) == inst:
+                        stores[t.value.attr] = (U(inline(t.slice, cenv)).replace(" ", ""), U(n.value))
+                    elif isinstance(t, ast.Attribute) and U(t.value) == inst:
+                        stores[t.attr] = (None, U(inline(n.value, cenv)).replace(" ", ""))
+            ok = all(stores.get(k) == (f":{n_expr}", rk[k]) for k in want) and stores.get("current_index") == (None, n_expr)
+            ck = kwargs(ctor).get("chunk_size")
+            ok = ok and sz is not None and "self.size" in U(sz) and ctor.args and U(ctor.args[0]) == rk["size"] and ck is not None and U(inline(ck, cenv)).replace(" ", "") == n_expr
     ctx.check("R7", f"{lf.site()}::restores-prefix-and-count", ok,
               "load reads all three columns whole into the prefix of fresh storage and sets current_index to their length",
               "the loader does not restore rows / cols / values into matching slots with current_index = number of stored values")
